@@ -86,7 +86,9 @@ func installRegs(r *regFile) {
 
 // noSymlinks: the tracee's file system has no symbolic links (resolution is the identity).
 func noSymlinks() {
-	sym.Intercept("os.Lstat", func(name string) (os.FileInfo, error) { return nil, &fs.PathError{Op: "lstat", Path: name, Err: syscall.ENOENT} })
+	sym.Intercept("os.Lstat", func(name string) (os.FileInfo, error) {
+		return nil, &fs.PathError{Op: "lstat", Path: name, Err: syscall.ENOENT}
+	})
 }
 
 func sysno(name string) uint {
